@@ -3,12 +3,12 @@
 // Token::loginSO/loginUser/reAuthenticate are sinks here (their state machine is obligation tok_*), SessionManager::haveROSession
 // is a symbolic boolean (its table semantics is obligation sess_*).
 #include "entry_env.h"
-struct L { unsigned long so, user, reauth, haveRO; CK_RV rv; bool ro; size_t pinLen; unsigned char pin0; };
+struct L { unsigned long so, user, reauth, haveRO; CK_RV rv; bool ro; size_t pinLen; unsigned char pin0, pinLast; };
 static L l;
 extern "C" {
-CK_RV sink_loginSO(Token*, ByteString& pin) { l.so++; l.pinLen = pin.size(); l.pin0 = pin.size() ? pin[0] : 0; return l.rv; }
-CK_RV sink_loginUser(Token*, ByteString& pin) { l.user++; l.pinLen = pin.size(); l.pin0 = pin.size() ? pin[0] : 0; return l.rv; }
-CK_RV sink_reAuth(Token*, ByteString& pin) { l.reauth++; l.pinLen = pin.size(); l.pin0 = pin.size() ? pin[0] : 0; return l.rv; }
+CK_RV sink_loginSO(Token*, ByteString& pin) { l.so++; l.pinLen = pin.size(); l.pin0 = pin.size() ? pin[0] : 0; l.pinLast = pin.size() ? pin[pin.size() - 1] : 0; return l.rv; }
+CK_RV sink_loginUser(Token*, ByteString& pin) { l.user++; l.pinLen = pin.size(); l.pin0 = pin.size() ? pin[0] : 0; l.pinLast = pin.size() ? pin[pin.size() - 1] : 0; return l.rv; }
+CK_RV sink_reAuth(Token*, ByteString& pin) { l.reauth++; l.pinLen = pin.size(); l.pin0 = pin.size() ? pin[0] : 0; l.pinLast = pin.size() ? pin[pin.size() - 1] : 0; return l.rv; }
 bool sink_haveRO(SessionManager*, CK_SLOT_ID slot) { l.haveRO++; vassert(slot == env.slotID); return l.ro; }
 }
 extern "C" void harness(void)
@@ -17,7 +17,13 @@ extern "C" void harness(void)
 	env.hsm->sessionManager = (SessionManager*)env.hsm;    // only its (cut) haveROSession is used
 	Session* s = env.session;
 	l.rv = nondet_ulong(); l.ro = nondet_bool();
-	static CK_UTF8CHAR pin[BS_CAP]; CK_ULONG pinLen = nondet_uchar(); vassume(pinLen <= BS_CAP); for (int i = 0; i < BS_CAP; i++) pin[i] = nondet_uchar();
+	static CK_UTF8CHAR pin[BS_CAP]; 
+#ifdef PINLEN
+	CK_ULONG pinLen = PINLEN;      // long PINs: the length is concrete per obligation, the bytes symbolic
+#else
+	CK_ULONG pinLen = nondet_uchar(); vassume(pinLen <= BS_CAP);
+#endif
+	 for (int i = 0; i < BS_CAP; i++) pin[i] = nondet_uchar();
 	bool nullPin = nondet_bool(); CK_USER_TYPE ut = nondet_ulong();
 	CK_SESSION_HANDLE hS = nondet_bool() ? env.hSession : nondet_ulong();
 	bool reauth0 = s->reAuthentication; int op0 = s->operation;
@@ -25,7 +31,7 @@ extern "C" void harness(void)
 	unsigned long calls = l.so + l.user + l.reauth;
 	vassert(calls <= 1);
 	if (hS != env.hSession || nullPin) { vassert(rv != CKR_OK && calls == 0); vassert(s->reAuthentication == reauth0); }
-	if (calls) { vassert(l.pinLen == pinLen && (pinLen == 0 || l.pin0 == pin[0])); vassert(rv == l.rv); vreach(); }      // the caller's PIN, unmodified, decides
+	if (calls) { vassert(l.pinLen == pinLen && (pinLen == 0 || (l.pin0 == pin[0] && l.pinLast == pin[pinLen - 1]))); vassert(rv == l.rv); vreach(); }      // the caller's PIN, unmodified, decides
 	if (rv == CKR_OK) { vassert(calls == 1); vreach(); }                                                                     // never OK without a Token-level PIN check
 	if (l.so) { vassert(ut == CKU_SO && !l.ro && l.haveRO == 1); vreach(); }                                                 // SO login is not even attempted while an RO session exists
 	if (ut == CKU_SO && hS == env.hSession && !nullPin && l.ro) { vassert(rv == CKR_SESSION_READ_ONLY_EXISTS && calls == 0); vreach(); }
